@@ -25,6 +25,7 @@ EXPLANATION = (
     "(D2p) a loader that branches on the source's type treats every kind of path its ensure_open-based siblings accept (str / os.PathLike) as a path; (D5o) no one-sided comparison decides whether an imaginary part is negligible."
     ' Round 4: presence of a scalar record member is not decided by its truthiness; a loop over fixed member names examines every name; (D6) savers, loaders and record converters keep no module-level state and store nothing on their arguments.'
     ' Round 5: save_list stores the list as given; optional members are not splatted positionally from a filtered sequence; (D7) the operator reader re-assembles through simplify(), decided by C03-D5.'
+    " Round 6: the sum parser's text rewriting (re.sub / replace before the split) is replayed on printed sums covering every shape repr() gives a coefficient below 1e15, exponent notation included (D3); every path of Measurements.save writes each bit as int unless a test looked at every bit of every shot (D4); presence of optional list members (frames) is decided with `is not None` on both the writer and the reader side -- an empty list of frames is data (D5; defect repaired in /repo ba502eb); (D8) stale loop variables."
 )
 RULE_TEXT = "instances = record keys per saver/loader pair, loaders, printer tokens, slots; distinct by (rule, construct)"
 ASSUMPTIONS = [
@@ -482,10 +483,16 @@ def _key_access(e: ast.AST, root: str) -> Optional[str]:
     return None
 
 
+# one named member, one reason: truthiness tests on a list member that are equivalent to `is not None` for every stored value
+EMPTY_IS_NOTHING = {
+    ("utils:convert_dict_to_array", "imag"): "the imaginary parts are *added* to the array built from \"real\": an empty list accompanies an empty \"real\" list only, and adding nothing to an empty array leaves an equal array",
+}
+
+
 def check_present_keys_by_membership(ctx):
-    """A reader decides whether an optional *scalar* member is present with ``"k" in record`` / ``is None``: a truthiness test on the
-    member's value also rejects a stored 0 / 0.0, which is data. Members that the same reader iterates or hands to an array / container constructor are containers (empty =
-    nothing to restore) and are left alone."""
+    """A reader decides whether an optional member is present with ``"k" in record`` / ``is None``: a truthiness test on the
+    member's value also rejects a stored 0 / 0.0 -- and a stored empty list (the property's "zero frames") --, which is data. The same holds
+    for the writer's test on an Optional[List] attribute."""
     repo = ctx.repo
     n = 0
     for name, w, r, root, allow in PAIRS:
@@ -524,11 +531,37 @@ def check_present_keys_by_membership(ctx):
             if k is None:
                 continue
             n += 1
-            if k in iterated:
-                ctx.ok(R5, f"{fi.key}:member-present:{k}", f"`{short(e)}` guards a member the reader iterates (a container: empty means nothing to restore)", fi)
+            if k in iterated and (fi.key, k) in EMPTY_IS_NOTHING:
+                ctx.ok(R5, f"{fi.key}:member-present:{k}", f"`{short(e)}`: {EMPTY_IS_NOTHING[(fi.key, k)]}", fi)
+            elif k in iterated:
+                ctx.violation(R5, f"{fi.key}:member-present:{k}", f"{fi.qualname}: `{short(e)}` decides whether the list member \"{k}\" is present by its truthiness: a stored empty list (zero frames) is treated as absent and comes back as None instead of [], so the loaded object is not the saved one (use `is not None` / `\"{k}\" in {root}`)", f"{fi.module.relpath}:{e.lineno}")
             else:
                 ctx.violation(R5, f"{fi.key}:member-present:{k}", f"{fi.qualname}: `{short(e)}` decides whether the scalar member \"{k}\" is present by its truthiness: a stored 0 / 0.0 is treated as absent, so the record written for that value does not load back to it (use `\"{k}\" in {root}` or `is None`)", f"{fi.module.relpath}:{e.lineno}")
-    ctx.ok(R5, "artefacts:member-present", f"{n} truthiness tests on record members examined", "")
+    # writer side: an optional list attribute is written whenever it is not None -- `if self.x:` also skips the empty list
+    nw = 0
+    for name, w, r, root, allow in PAIRS:
+        fw = repo.func(w)
+        if fw.cls is None:
+            continue
+        init = fw.cls.methods.get("__init__")
+        opt = set()
+        if init is not None:
+            for a in init.node.args.args + init.node.args.kwonlyargs:
+                if a.annotation is not None and "Optional[" in norm(a.annotation) and any(t in norm(a.annotation) for t in ("List", "Sequence", "ndarray", "Dict", "Tuple", "list", "dict")):
+                    opt.add(a.arg)
+        for x in body_walk(fw.node):
+            if isinstance(x, (ast.If, ast.IfExp)):
+                stack = [x.test]
+                while stack:
+                    e = stack.pop()
+                    if isinstance(e, ast.BoolOp):
+                        stack.extend(e.values)
+                    elif isinstance(e, ast.UnaryOp) and isinstance(e.op, ast.Not):
+                        stack.append(e.operand)
+                    elif isinstance(e, ast.Attribute) and isinstance(e.value, ast.Name) and e.value.id == "self" and e.attr in opt:
+                        nw += 1
+                        ctx.violation(R5, f"{fw.key}:member-written:{e.attr}", f"{fw.qualname}: `{short(x.test)}` decides by truthiness whether the optional list `{e.attr}` is written: an empty list (zero frames) is not written at all and loads back as None instead of [], so the loaded object is not the saved one (test `is not None`)", f"{fw.module.relpath}:{e.lineno}")
+    ctx.ok(R5, "artefacts:member-present", f"{n} truthiness tests on record members examined in the readers, {nw} truthiness tests on optional list attributes in the writers", "")
 
 
 def check_member_loops_complete(ctx):
